@@ -63,8 +63,19 @@ def op_m3_honest(rng, code="ok", variant="exact", spell="min", **kw):
                  a="%x" % (rng.getrandbits(256) | 1), **kw)
 
 
-def op_m3_deg(rng, k=1, spell="min", proof="s0", **kw):
-    return _base(rng, "M3", mode="deg", k=k, spell=spell, proof=proof, rand=hx(_rb(rng, 64)), **kw)
+def op_m3_deg(rng, k=1, spell="min", proof="s0", find=None, **kw):
+    """A = k*N in some spelling.  proof: s0 (the proof anybody can compute, S = 0) | s0-strip (its leading zero
+    bytes removed) | s0-pad (a zero byte prepended) | s0-trunc (last byte cut) | stale | random.
+    find="m0-zero": the attacker first enumerates k, k+1, ... (at most 400) until that public proof begins
+    with a zero byte (it hashes the BYTES of A, so every multiple gives a new proof)."""
+    return _base(rng, "M3", mode="deg", k=k, spell=spell, proof=proof, find=find, rand=hx(_rb(rng, 64)), **kw)
+
+
+def op_m3_overlong(rng, shape="z+N1", proof="stale", **kw):
+    """A not 0 mod N spelled with MORE than 384 bytes: z+N1 = 00|(N+1), zz+2 = 00 00|(N+2) padded to 386,
+    big = 2^3072 + r (385 bytes), z+rand = 00|random 384 bytes.  proof: stale (the proof carried by the previous
+    M3 of this session) | s0 (public proof computed for THIS A as if S were 0) | random."""
+    return _base(rng, "M3", mode="overlong", shape=shape, proof=proof, rand=hx(_rb(rng, 384)), **kw)
 
 
 def op_m3_replay(rng, i=0, **kw):
@@ -156,6 +167,29 @@ def boundary_plans(rng) -> List[Dict[str, Any]]:
                                                 op_m5(rng, key, "valid", conn=c)]))
     P.append(new_plan(rng, [op_m1(rng, **c0), op_m3_honest(rng, "ok", **c0), dict(op_m3_deg(rng, 1, "min", conn=1), drop="M"),
                             op_m5(rng, "lastA", "valid", conn=1)]))
+    # repeated M3 inside one session: a degenerate (or honest) M3 first, then an A of more than 384 bytes that is not
+    # 0 mod N carrying the proof of the PREVIOUS M3 (or the public S = 0 proof for itself), then M5 under the public key
+    for first in (lambda: op_m3_deg(rng, 1, "min", "s0", **c0), lambda: op_m3_deg(rng, 0, "empty", "s0", **c0),
+                  lambda: op_m3_deg(rng, 2, "pad", "s0", **c0), lambda: op_m3_honest(rng, "ok", **c0),
+                  lambda: op_m3_honest(rng, "wrong", **c0)):
+        for shape in ("z+N1", "zz+2", "big", "z+rand"):
+            for proof in ("stale", "s0"):
+                P.append(new_plan(rng, [op_m1(rng, **c0), first(), op_m3_overlong(rng, shape, proof, **c0),
+                                        op_m5(rng, "s0", "valid", **c0)]))
+    P.append(new_plan(rng, [op_m1(rng, **c0), op_m3_overlong(rng, "z+N1", "s0", **c0), op_m5(rng, "s0", "valid", **c0)]))
+    P.append(new_plan(rng, [op_m1(rng, **c0), op_m3_deg(rng, 1, **c0), op_m3_honest(rng, "ok", "stale", **c0), op_m5(rng, "s0", "valid", **c0)]))
+    P.append(new_plan(rng, [op_m1(rng, **c0), op_m3_deg(rng, 1, **c0), op_m3_deg(rng, 2, "min", "stale", **c0), op_m5(rng, "s0", "valid", **c0)]))
+    # many multiples of N: the public proof hashes the BYTES of A, so the attacker can search for a proof of a wanted
+    # shape (leading zero byte) and present it stripped / padded / truncated
+    for spell in ("min", "pad"):
+        for proof in ("s0-strip", "s0-pad", "s0-trunc", "s0"):
+            P.append(new_plan(rng, [op_m1(rng, **c0), op_m3_deg(rng, rng.randrange(1, 200), spell, proof, find="m0-zero", **c0),
+                                    op_m5(rng, "s0", "valid", **c0)]))
+    for k in (4, 17, 100, 255, 256, 399):
+        P.append(new_plan(rng, [op_m1(rng, **c0), op_m3_deg(rng, k, "min", rng.choice(["s0", "s0-strip", "s0-pad", "s0-trunc"]), **c0),
+                                op_m5(rng, "s0", "valid", **c0)]))
+    for v in ("strip", "zeropad"):
+        P.append(new_plan(rng, [op_m1(rng, **c0), op_m3_honest(rng, "ok", v, **c0), op_m5(rng, "sess", "valid", **c0)]))
     # the accessory becomes unpaired again after a completed exchange: nothing of that exchange may be reused
     done = lambda: [op_m1(rng, **c0), op_m3_honest(rng, "ok", **c0), op_m5(rng, "sess", "valid", **c0), op_unpair(rng)]  # noqa: E731
     for c in (0, 1):
@@ -235,12 +269,17 @@ def random_plan(rng) -> Dict[str, Any]:
             ops.append(op_m1(rng))
         elif r < 0.42:
             ops.append(op_m3_honest(rng, rng.choice(["ok", "ok", "ok", "wrong"]),
-                                    rng.choice(["exact"] * 6 + ["empty", "prefix", "extended", "bitflip"]),
+                                    rng.choice(["exact"] * 6 + ["empty", "prefix", "extended", "bitflip", "strip", "zeropad", "stale"]),
                                     rng.choice(["min"] * 5 + ["pad"])))
             n_m3 += 1
         elif r < 0.55:
-            ops.append(op_m3_deg(rng, rng.choice([0, 1, 1, 1, 2, 3, 255]), rng.choice(["min", "min", "pad", "empty", "zero"]),
-                                 rng.choice(["s0", "s0", "s0", "random"])))
+            if rng.random() < 0.25:
+                ops.append(op_m3_overlong(rng, rng.choice(["z+N1", "zz+2", "big", "z+rand"]), rng.choice(["stale", "stale", "s0", "random"])))
+            else:
+                ops.append(op_m3_deg(rng, rng.choice([0, 1, 1, 1, 2, 3, 255, rng.randrange(4, 400)]),
+                                     rng.choice(["min", "min", "pad", "empty", "zero"]),
+                                     rng.choice(["s0", "s0", "s0", "random", "s0-strip", "s0-pad", "s0-trunc", "stale"]),
+                                     find="m0-zero" if rng.random() < 0.25 else None))
             n_m3 += 1
         elif r < 0.60 and n_m3:
             ops.append(op_m3_replay(rng, rng.randrange(n_m3)))
@@ -375,19 +414,45 @@ def run_plan(plan: Dict[str, Any], env=None) -> Dict[str, Any]:
                     last_client = cl
                     A, proof = cl.A_bytes, cl.M1
                     v = op["variant"]
+                    prev = [m for m in m3_sent if m["xch"] == xch]
                     proof = {"exact": proof, "empty": b"", "prefix": proof[:-1], "extended": proof + b"\x00",
-                             "bitflip": bytes([proof[0] ^ 1]) + proof[1:]}[v]
+                             "bitflip": bytes([proof[0] ^ 1]) + proof[1:], "strip": proof.lstrip(b"\x00")[1:] if proof[0] else proof.lstrip(b"\x00"),
+                             "zeropad": b"\x00" + proof, "stale": prev[-1]["proof"] if prev else b""}[v]
                     if op["spell"] == "pad":
                         A = b"\x00" + A
                     m3_sent.append({"A": A, "proof": proof, "a": a, "xch": xch})
                     kind = f"M3-honest-{op['code']}-{v}" + ("-padA" if op["spell"] == "pad" else "")
                 elif op["mode"] == "deg":
-                    kN = ref.i2b(op["k"] * ref.N)
-                    A = {"min": kN, "pad": b"\x00\x00" + kN, "empty": b"", "zero": b"\x00"}[op["spell"]]
+                    def spell_A(k):
+                        kN = ref.i2b(k * ref.N)
+                        return {"min": kN, "pad": b"\x00\x00" + kN, "empty": b"", "zero": b"\x00"}[op["spell"]]
+
+                    k = op["k"]
+                    A = spell_A(k)
                     _, m1, _ = ref.degenerate_proof(csalt, A, cB)
-                    proof = m1 if op["proof"] == "s0" else bytes.fromhex(op["rand"])
+                    if op.get("find") == "m0-zero" and op["spell"] in ("min", "pad"):
+                        # the attacker's own search: only salt, B and public constants are needed
+                        for k in range(max(op["k"], 1), max(op["k"], 1) + 400):
+                            A = spell_A(k)
+                            _, m1, _ = ref.degenerate_proof(csalt, A, cB)
+                            if m1[0] == 0:
+                                break
+                    prev = [m for m in m3_sent if m["xch"] == xch]
+                    proof = {"s0": m1, "s0-strip": m1.lstrip(b"\x00") or b"\x00", "s0-pad": b"\x00" + m1, "s0-trunc": m1[:-1],
+                             "stale": prev[-1]["proof"] if prev else m1}.get(op["proof"], bytes.fromhex(op["rand"]))
                     m3_sent.append({"A": A, "proof": proof, "a": None, "xch": xch})
-                    kind = f"M3-degenerate-{op['spell']}-{op['proof']}"
+                    kind = f"M3-degenerate-{op['spell']}-{op['proof']}" + ("-searched" if op.get("find") else "")
+                elif op["mode"] == "overlong":
+                    rnd = bytes.fromhex(op["rand"])
+                    A = {"z+N1": b"\x00" + ref.i2b(ref.N + 1), "zz+2": b"\x00\x00" + ref.i2b(ref.N + 2),
+                         "big": ref.i2b((1 << 3072) + ref.b2i(rnd[:16])), "z+rand": b"\x00" + rnd[:383] + b"\x01"}[op["shape"]]
+                    if ref.b2i(A) % ref.N == 0:
+                        A = A[:-1] + bytes([A[-1] ^ 1])
+                    prev = [m for m in m3_sent if m["xch"] == xch]
+                    _, m1, _ = ref.degenerate_proof(csalt, A, cB)
+                    proof = {"stale": prev[-1]["proof"] if prev else m1, "s0": m1}.get(op["proof"], rnd[:64])
+                    m3_sent.append({"A": A, "proof": proof, "a": None, "xch": xch})
+                    kind = f"M3-overlong-{op['shape']}-{op['proof']}"
                 elif op["mode"] == "replay":
                     if m3_sent:
                         old = m3_sent[op["i"] % len(m3_sent)]
@@ -486,7 +551,9 @@ def run_plan(plan: Dict[str, Any], env=None) -> Dict[str, Any]:
             if o["O1"] and not is_demo:
                 viol.append([
                     "C01:proof-issued-without-code:" + ("degenerate-A" if last_m3_kind == "degenerate" else
-                                                        "replayed-from-earlier-exchange" if op.get("mode") == "replay" else "wrong-proof"),
+                                                        "replayed-from-earlier-exchange" if op.get("mode") == "replay" else
+                                                        "stale-proof-of-previous-M3" if (op.get("proof") == "stale" or op.get("variant") == "stale")
+                                                        else "wrong-proof"),
                     f"M4 carries the accessory's SRP proof although the M3 ({kind}) does not demonstrate knowledge of the setup code",
                 ])
             if (o["O2"] or o["O3"]) and not (demo or m5_with_code_key):
@@ -629,6 +696,10 @@ def run(ctx: Ctx):
         "(hsrp.Server on A = 0 mod N vs Srp.lean).  A script is non-trivial if some request reaches a refusing or "
         "state-changing branch of the handler (all non-empty scripts do); distinct by the request bodies."
     )
+    st.notes.append("the model's verify compares proofs as BYTE STRINGS (List UInt8 equality), as hsrp does: a stripped, "
+                    "zero-padded or truncated proof is a different string; the stream sends such variants of the honest and "
+                    "of the public S=0 proof, proofs carried over from the previous M3 of the session, k*N for k up to 400 with "
+                    "an attacker-side search for a proof of a wanted shape, and A spelled with more than 384 bytes")
     items = boundary_plans(rng) + worlds(rng, ctx.n(4, 200)) + [random_plan(rng) for _ in range(ctx.n(220, 8000))]
     plans, results, owners = [], [], []
     for item, rs in zip(items, pe.pmap(run_item, items, workers=12)):
